@@ -232,10 +232,26 @@ def rule_f(repo, chk):
         chk.ob('C07.f', not subs, f, 'Script.%s does not index the code lines itself (it forwards to get_references, see C01.a)' % m)
 
 
+def rule_g(repo, chk):
+    chk.clause('C07.g', 'text outside the rewritten nodes is preserved: extract keeps the whole prefix (comments, blank lines, line breaks) of the '
+                        'first replaced leaf unless a remaining prefix was split off explicitly; rename keeps each token\'s prefix (C05.b)')
+    rp = repo.find(EXT, '_replace')
+    full = [s_ for s_ in stmts_in(rp, ast.Assign) if norm(s_.value) == 'first_node_leaf.prefix']
+    ok = bool(full) and all(gate(rp, s_, lambda e, pol: pol and norm(e) == 'remaining_prefix is None') is None for s_ in full)
+    chk.ob('C07.g', ok, rp, 'without a remaining prefix the replaced expression keeps the WHOLE prefix of its first leaf',
+           'no assignment from first_node_leaf.prefix under `remaining_prefix is None`')
+    rn = repo.find(REF, 'rename')
+    ok = any(norm(s_.value) == 'tree_name.prefix + new_name' for s_ in stmts_in(rn, ast.Assign))
+    chk.ob('C07.g', ok, rn, 'rename writes prefix + new name for every token')
+    il = repo.find(REF, 'inline')
+    ok = any(norm(s_.value) == 'prefix + s' for s_ in stmts_in(il, ast.Assign)) and any(norm(s_.value) == 'n.prefix' for s_ in stmts_in(il, ast.Assign))
+    chk.ob('C07.g', ok, il, 'inline keeps the prefix of every replaced reference')
+
+
 def describe(chk):
     chk.undecided('that difflib\'s output applies cleanly and that parso\'s refactor preserves all bytes outside the rewritten nodes (library behaviour); '
                   'which nodes a refactoring rewrites')
     chk.assume('an attribute call .rename(x)/.replace(x) with one argument on an unresolved receiver is a pathlib rename')
 
 
-RULES = [('C07.a', rule_a), ('C07.b', rule_b), ('C07.c', rule_c), ('C07.d', rule_d), ('C07.e', rule_e), ('C07.f', rule_f)]
+RULES = [('C07.a', rule_a), ('C07.b', rule_b), ('C07.c', rule_c), ('C07.d', rule_d), ('C07.e', rule_e), ('C07.f', rule_f), ('C07.g', rule_g)]
